@@ -322,6 +322,7 @@ Theo::Node *MVARGS(ParseState &ps) {
   ps.match(Theo::Token::ARGSEP);
   Node *v = VALUE(ps);
   Node *m = MVARGS(ps);
+  if (v == NULL) return m;  // VALUE has already recorded the error
   return ps.a.mk(Node::Type::SPLIT, v->line, v->file, "", v, m);
 }
 
